@@ -5,6 +5,7 @@
   ballot permutation / merging / splitting and equivariance under a renaming of the indices.
   Hash-seed independence cannot be exhibited by a model; it is carried by the multi-interpreter replay.
 -/
+import VK.Lemmas.LinEq
 import VK.Lemmas.Condense
 import VK.Model.Pairwise
 import Mathlib.Algebra.BigOperators.Group.List.Lemmas
@@ -151,5 +152,182 @@ theorem C08_margin_perm_invariant (cands : List Cand) (bs bs' : List Ballot) (hp
   unfold margin h2h
   simp only [rsum_eq_sum]
   rw [(hperm.map _).sum_eq, (hperm.map _).sum_eq]
+
+/-! ### the STV family: ballot order, splitting and merging do not change any round -/
+
+/-- loop outcomes that record the same rounds -/
+def RelTrace : Outcome (List (RoundState × CState)) → Outcome (List (RoundState × CState)) → Prop
+  | .ok a, .ok b => a.map (·.1) = b.map (·.1)
+  | .raised e, .raised e' => e = e'
+  | .oracleMismatch, .oracleMismatch => True
+  | .outOfFuel, .outOfFuel => True
+  | _, _ => False
+
+theorem stvLoop_lineq (cfg : STVCfg) (init init' : Profile) (q : Int) (ω : STVOracle)
+    (hnr : cfg.transfer ≠ .random) (hcfg : ProfileFreeChoice cfg)
+    (hinit : firstPlaceVotes init = firstPlaceVotes init')
+    (fuel : Nat) (S S2 : CState) (prev : RoundState) (acc acc2 : List (RoundState × CState))
+    (hS : SameCount S S2) (hacc : acc.map (·.1) = acc2.map (·.1)) :
+    RelTrace (stvLoop cfg init q ω fuel S prev acc) (stvLoop cfg init' q ω fuel S2 prev acc2) := by
+  induction fuel generalizing S S2 prev acc acc2 with
+  | zero =>
+    unfold stvLoop
+    rw [← hS.2.1]
+    split
+    · simp only [RelTrace, List.map_reverse, hacc]
+    · simp [RelTrace]
+  | succ fuel ih =>
+    unfold stvLoop
+    rw [← hS.2.1]
+    split
+    · simp only [RelTrace, List.map_reverse, hacc]
+    · have hstep := stvStep_lineq cfg init init' q ω (prev.round + 1) S S2 prev hnr hcfg hinit hS
+      cases h1 : stvStep cfg init q ω (prev.round + 1) S prev with
+      | ok a =>
+        cases h2 : stvStep cfg init' q ω (prev.round + 1) S2 prev with
+        | ok b =>
+          rw [h1, h2] at hstep
+          obtain ⟨hr, hS'⟩ := hstep
+          obtain ⟨S', r⟩ := a
+          obtain ⟨S2', r2⟩ := b
+          simp only at hr hS'
+          subst hr
+          simp only [bind, Outcome.bind]
+          exact ih S' S2' r _ _ hS' (by simp [hacc])
+        | raised e => rw [h1, h2] at hstep; exact absurd hstep (by simp [RelStep])
+        | oracleMismatch => rw [h1, h2] at hstep; exact absurd hstep (by simp [RelStep])
+        | outOfFuel => rw [h1, h2] at hstep; exact absurd hstep (by simp [RelStep])
+      | raised e =>
+        cases h2 : stvStep cfg init' q ω (prev.round + 1) S2 prev with
+        | raised e' => rw [h1, h2] at hstep; simpa [bind, Outcome.bind, RelTrace, RelStep] using hstep
+        | ok b => rw [h1, h2] at hstep; exact absurd hstep (by simp [RelStep])
+        | oracleMismatch => rw [h1, h2] at hstep; exact absurd hstep (by simp [RelStep])
+        | outOfFuel => rw [h1, h2] at hstep; exact absurd hstep (by simp [RelStep])
+      | oracleMismatch =>
+        cases h2 : stvStep cfg init' q ω (prev.round + 1) S2 prev with
+        | oracleMismatch => simp [bind, Outcome.bind, RelTrace]
+        | ok b => rw [h1, h2] at hstep; exact absurd hstep (by simp [RelStep])
+        | raised e => rw [h1, h2] at hstep; exact absurd hstep (by simp [RelStep])
+        | outOfFuel => rw [h1, h2] at hstep; exact absurd hstep (by simp [RelStep])
+      | outOfFuel =>
+        cases h2 : stvStep cfg init' q ω (prev.round + 1) S2 prev with
+        | outOfFuel => simp [bind, Outcome.bind, RelTrace]
+        | ok b => rw [h1, h2] at hstep; exact absurd hstep (by simp [RelStep])
+        | raised e => rw [h1, h2] at hstep; exact absurd hstep (by simp [RelStep])
+        | oracleMismatch => rw [h1, h2] at hstep; exact absurd hstep (by simp [RelStep])
+
+/-- results that report the same threshold and the same rounds (or fail in the same way) -/
+def RelResult : Outcome STVResult → Outcome STVResult → Prop
+  | .ok a, .ok b => a.threshold = b.threshold ∧ a.states = b.states
+  | .raised e, .raised e' => e = e'
+  | .oracleMismatch, .oracleMismatch => True
+  | .outOfFuel, .outOfFuel => True
+  | _, _ => False
+
+theorem total_eq_lsum (p : Profile) : p.total = lsum (fun _ => 1) (stvInitState p).bs := by
+  unfold Profile.total totalWeight lsum stvInitState
+  simp [List.map_map, Function.comp_def]
+
+/-- **C08 for the STV family (anonymity and representation independence).** Two profiles of untied
+ranked ballots over the same candidates that give every ranking the same total weight — one is a
+reordering of the other's ballots, or splits a ballot into identical ballots whose weights add up, or
+merges identical ballots — have, under the same tiebreak oracle, the same threshold and exactly the
+same rounds (elected, eliminated, remaining groups, tallies, recorded tiebreaks), or fail in the
+same way. Holds for the fractional and the full-weight transfer, for simultaneous election with
+any tiebreak and for one-by-one election with tiebreak `None` or `random`. -/
+theorem C08_stv_representation_invariant (cfg : STVCfg) (p p' : Profile) (ω : STVOracle)
+    (hnr : cfg.transfer ≠ .random) (hcfg : ProfileFreeChoice cfg) (hc : p.cands = p'.cands)
+    (hle : LinEq (stvInitState p).bs (stvInitState p').bs)
+    (hne : ∀ b ∈ p.ballots, b.ranking ≠ []) (hsingle : ∀ b ∈ p.ballots, ∀ s ∈ b.ranking, s.length = 1)
+    (hcast : ∀ b ∈ p.ballots, ∀ c ∈ b.ranking.flatten, c ∈ p.cands)
+    (hne' : ∀ b ∈ p'.ballots, b.ranking ≠ []) (hsingle' : ∀ b ∈ p'.ballots, ∀ s ∈ b.ranking, s.length = 1)
+    (hcast' : ∀ b ∈ p'.ballots, ∀ c ∈ b.ranking.flatten, c ∈ p'.cands) :
+    RelResult (stvRun cfg p ω) (stvRun cfg p' ω) := by
+  have hf := fpv_link p hne hsingle hcast
+  have hf' := fpv_link p' hne' hsingle' hcast'
+  have hsc : tallies (stvInitState p).bs p.cands = tallies (stvInitState p').bs p'.cands := by
+    rw [← hc]; exact hle.tallies p.cands
+  have hinit : firstPlaceVotes p = firstPlaceVotes p' := by rw [hf, hf', hsc]
+  have htot : p.total = p'.total := by rw [total_eq_lsum, total_eq_lsum]; exact hle _
+  have hv : stvValidProfile p = true := by
+    unfold stvValidProfile
+    rw [List.all_eq_true]
+    intro b hb
+    simp only [Bool.and_eq_true, Bool.not_eq_true', List.isEmpty_eq_false_iff, List.all_eq_true, decide_eq_true_eq]
+    exact ⟨hne b hb, fun s hs => le_of_eq (hsingle b hb s hs)⟩
+  have hv' : stvValidProfile p' = true := by
+    unfold stvValidProfile
+    rw [List.all_eq_true]
+    intro b hb
+    simp only [Bool.and_eq_true, Bool.not_eq_true', List.isEmpty_eq_false_iff, List.all_eq_true, decide_eq_true_eq]
+    exact ⟨hne' b hb, fun s hs => le_of_eq (hsingle' b hb s hs)⟩
+  unfold stvRun
+  simp only [hv, hv', Bool.not_true, Bool.false_eq_true, if_false, ← hc]
+  split
+  · simp [RelResult]
+  · simp only [hf, hf', bind, Outcome.bind, ← htot, hsc]
+    have hS0 : SameCount (stvInitState p) (stvInitState p') := ⟨by simp [stvInitState, hc], rfl, hle⟩
+    have hloop := stvLoop_lineq cfg p p' (threshold cfg.quota cfg.m p.total) ω hnr hcfg hinit (p.cands.length + 2)
+      (stvInitState p) (stvInitState p') (initialState p.cands (some (tallies (stvInitState p').bs p'.cands)))
+      [(initialState p.cands (some (tallies (stvInitState p').bs p'.cands)), stvInitState p)]
+      [(initialState p.cands (some (tallies (stvInitState p').bs p'.cands)), stvInitState p')] hS0 (by simp)
+    rw [← hc] at hloop ⊢
+    cases h1 : stvLoop cfg p (threshold cfg.quota cfg.m p.total) ω (p.cands.length + 2) (stvInitState p)
+        (initialState p.cands (some (tallies (stvInitState p').bs p.cands)))
+        [(initialState p.cands (some (tallies (stvInitState p').bs p.cands)), stvInitState p)] with
+    | ok a =>
+      cases h2 : stvLoop cfg p' (threshold cfg.quota cfg.m p.total) ω (p.cands.length + 2) (stvInitState p')
+          (initialState p.cands (some (tallies (stvInitState p').bs p.cands)))
+          [(initialState p.cands (some (tallies (stvInitState p').bs p.cands)), stvInitState p')] with
+      | ok b =>
+        rw [h1, h2] at hloop
+        simp only [pure, RelResult, STVResult.states]
+        first
+          | exact ⟨rfl, hloop⟩
+          | exact ⟨trivial, hloop⟩
+          | exact hloop
+      | raised e => rw [h1, h2] at hloop; exact absurd hloop (by simp [RelTrace])
+      | oracleMismatch => rw [h1, h2] at hloop; exact absurd hloop (by simp [RelTrace])
+      | outOfFuel => rw [h1, h2] at hloop; exact absurd hloop (by simp [RelTrace])
+    | raised e =>
+      cases h2 : stvLoop cfg p' (threshold cfg.quota cfg.m p.total) ω (p.cands.length + 2) (stvInitState p')
+          (initialState p.cands (some (tallies (stvInitState p').bs p.cands)))
+          [(initialState p.cands (some (tallies (stvInitState p').bs p.cands)), stvInitState p')] with
+      | raised e' => rw [h1, h2] at hloop; simpa [RelResult, RelTrace] using hloop
+      | ok b => rw [h1, h2] at hloop; exact absurd hloop (by simp [RelTrace])
+      | oracleMismatch => rw [h1, h2] at hloop; exact absurd hloop (by simp [RelTrace])
+      | outOfFuel => rw [h1, h2] at hloop; exact absurd hloop (by simp [RelTrace])
+    | oracleMismatch =>
+      cases h2 : stvLoop cfg p' (threshold cfg.quota cfg.m p.total) ω (p.cands.length + 2) (stvInitState p')
+          (initialState p.cands (some (tallies (stvInitState p').bs p.cands)))
+          [(initialState p.cands (some (tallies (stvInitState p').bs p.cands)), stvInitState p')] with
+      | oracleMismatch => simp [RelResult]
+      | ok b => rw [h1, h2] at hloop; exact absurd hloop (by simp [RelTrace])
+      | raised e => rw [h1, h2] at hloop; exact absurd hloop (by simp [RelTrace])
+      | outOfFuel => rw [h1, h2] at hloop; exact absurd hloop (by simp [RelTrace])
+    | outOfFuel =>
+      cases h2 : stvLoop cfg p' (threshold cfg.quota cfg.m p.total) ω (p.cands.length + 2) (stvInitState p')
+          (initialState p.cands (some (tallies (stvInitState p').bs p.cands)))
+          [(initialState p.cands (some (tallies (stvInitState p').bs p.cands)), stvInitState p')] with
+      | outOfFuel => simp [RelResult]
+      | ok b => rw [h1, h2] at hloop; exact absurd hloop (by simp [RelTrace])
+      | raised e => rw [h1, h2] at hloop; exact absurd hloop (by simp [RelTrace])
+      | oracleMismatch => rw [h1, h2] at hloop; exact absurd hloop (by simp [RelTrace])
+
+/-- reordering the ballots is a special case -/
+theorem C08_stv_ballot_order (p : Profile) (bs' : List Ballot) (h : p.ballots.Perm bs') :
+    LinEq (stvInitState p).bs (stvInitState { p with ballots := bs' }).bs := by
+  unfold stvInitState
+  exact LinEq.of_perm (h.map _)
+
+/-- splitting one ballot into two identical ballots whose weights add up is a special case -/
+theorem C08_stv_ballot_split (cands : List Cand) (r : Ranking) (w1 w2 : Rat) (rest : List Ballot) :
+    LinEq (stvInitState { ballots := { ranking := r, weight := w1 + w2, scores := [] } :: rest, cands := cands }).bs
+      (stvInitState { ballots := { ranking := r, weight := w1, scores := [] } ::
+        { ranking := r, weight := w2, scores := [] } :: rest, cands := cands }).bs := by
+  unfold stvInitState
+  simp only [List.map_cons]
+  exact LinEq.of_split _ _ _ _
+
 
 end VK
